@@ -94,6 +94,47 @@ class Rule:
         return False
 
 
+class SubCheck:
+    """View of a Check through which ANOTHER property's rules are run as obligations of this property (a property
+    that depends on a layer inherits that layer's rules): rule ids are prefixed (`C03.R2`), rules that the host
+    already shares explicitly (same title) are not run twice, and bookkeeping that belongs to the other property
+    (explanation, not-decided list) is dropped."""
+
+    def __init__(self, host: "Check", dep: str):
+        self._host = host
+        self._dep = dep
+        self._titles = {r.title for r in host.rules}
+        self.pid = host.pid
+        self.tier = host.tier
+        self.seed = host.seed
+        self.extra = host.extra
+        self.explanation = ""
+        self.not_decided: list = []
+        self.assumptions: list = []
+        self.exhaustive = None
+        self._mine: list = []
+
+    @property
+    def rules(self):
+        return self._mine
+
+    def rule(self, rid: str, title: str) -> "Rule":
+        if title in self._titles:
+            r = Rule(self._host, f"{self._dep}.{rid}", title)  # detached: already an explicit obligation of the host
+            r.detached = True
+            return r
+        r = self._host.rule(f"{self._dep}.{rid}", title)
+        r.inherited_from = (self._dep, rid)
+        self._mine.append(r)
+        return r
+
+    def analysed_fn(self, *quals: str) -> None:
+        self._host.analysed_fn(*quals)
+
+    def trust(self, *rows: str) -> None:
+        self._host.trust(*rows)
+
+
 class Check:
     def __init__(self, pid: str, tier: str):
         self.pid = pid
@@ -126,7 +167,15 @@ class Check:
 
     # ------------------------------------------------------------------
     def finish(self) -> int:
-        known = [k for k in _load_known() if k["property"] == self.pid]
+        all_known = _load_known()
+        known = [k for k in all_known if k["property"] == self.pid]
+        # an inherited rule `C03.R2` also answers to the findings recorded for C03-R2 itself
+        for k in all_known:
+            if k["property"] != self.pid:
+                kk = dict(k)
+                kk["rule"] = f"{k['property']}.{k['rule']}"
+                kk["_inherited"] = True
+                known.append(kk)
         all_v = [v for r in self.rules for v in r.violations]
         new_v = []
         known_hit = []
